@@ -347,7 +347,8 @@ class Evaluator:
             txt = "part=%s harness exception: %s" % (self.part.name, traceback.format_exc()[-3000:])
             o.fails.append(Fail("HARNESS", "exc:%s" % type(exc).__name__, "", txt))
         self.rec.evaluations += o.n_evals
-        self.rec.nontrivial_extra += o.n_nontrivial_extra
+        # a chunk that is itself recorded as non-trivial (by its key) stands for one of its members
+        self.rec.nontrivial_extra += max(0, o.n_nontrivial_extra - (1 if o._nontrivial else 0))
         self.rec.part_counts[self.part.name] += o.n_evals
         labels = o.labels
         self.rec.labels.update(labels)
